@@ -94,4 +94,13 @@ def extra_obligations(repo, D, pid):
         out.append(Ob('ParameterList.param_type/frame[row of %s is the documented one: type, None allowed, lower, upper]' % key, 'frame', 'ParameterList.param_type', ['C07'], [],
                       z3.BoolVal(cur_row == pinned.get(key)), 0, 'unsat', {'syntactic': True, 'why': 'now %s, documented %s' % (cur_row, pinned.get(key)), 'param_key': key,
                                                                             'documented': pinned.get(key), 'current': cur_row}))
+    doc_defaults = json.load(open(os.path.join(os.path.dirname(os.path.abspath(__file__)), 'param_table.json'))).get('defaults', {})
+    RANDOM_KEYS = ('init.random_initial_directions', 'init.run_in_parallel', 'init.random_directions_make_orthogonal', 'regression.momentum_extra_steps', 'restarts.increase_npt',
+                   'growing.perturb_trust_region_step', 'growing.ndirs_initial', 'growing.num_new_dirns_each_iter', 'growing.full_rank.use_full_rank_interp')
+    for key in sorted(set(doc_defaults) | set(repo.param_defaults)):
+        cur = ast.unparse(repo.param_defaults[key]) if key in repo.param_defaults else None
+        tags = ['C07'] + (['C19'] if key in RANDOM_KEYS else [])
+        out.append(Ob('ParameterList.__init__/frame[default of %s is the documented one]' % key, 'frame', 'ParameterList.__init__', tags, [],
+                      z3.BoolVal(cur == doc_defaults.get(key)), 0, 'unsat', {'syntactic': True, 'why': 'now %s, documented %s' % (cur, doc_defaults.get(key)),
+                                                                            'default_key': key, 'documented_default': doc_defaults.get(key), 'current_default': cur}))
     return out
